@@ -237,7 +237,7 @@ func c05ClientAuth(w *World, r *Report) {
 		req, reqKnown := false, false
 		for v, t := range e.State.Facts {
 			if isLoadOfField(v, reqFlag) {
-				req, reqKnown = t, true
+				req, reqKnown = req || t, true // any test that found the flag set counts (independent of map order)
 			}
 		}
 		if reqKnown && !req {
